@@ -977,6 +977,11 @@ def leak_shapes():
     A(P("track-dropped", [L("tnew", "k"), spawn(2), join(2)], [L("tdrop", "k")]))
     A(P("track-kept", [L("tnew", "k"), spawn(2), join(2)], [ld("x")]))
     A(P("track-forgotten", [L("tnew", "k"), L("tforget", "k")]))
+    # released by the unwinding of a panic the program catches itself: released all the same
+    A(P("track-dropped-by-caught-unwind", [L("tnew", "k"), spawn(2), join(2)], [L("tdrop", "k", k="unwind")]))
+    A(P("track-dropped-by-caught-unwind-if-cas-wins", [L("tnew", "k")] + SJ(2) + JJ(2), [cas("x", 0, 1), br(1, 0, 1), L("tdrop", "k", k="unwind")], [cas("x", 0, 2)]))
+    A(P("arc-dropped-by-caught-unwind", SJ(2) + JJ(2), [L("adrop", "a1", k="unwind")], [ld("x"), L("adrop", "a2", k="unwind")], arcs=a2))
+    A(P("receiver-dropped-by-caught-unwind", [spawn(2), L("recv", "ch"), L("droprx", "ch", k="unwind"), join(2)], [L("send", "ch", v=1)]))
     A(P("track-drop-if-cas-wins", [L("tnew", "k")] + SJ(2) + JJ(2), [cas("x", 0, 1), br(1, 0, 1), L("tdrop", "k")], [cas("x", 0, 2)]))
     A(P("msg-left", [spawn(2), join(2)], [L("send", "ch", v=1)]))
     A(P("msg-drained-by-drop", [spawn(2), join(2), L("droprx", "ch")], [L("send", "ch", v=1), L("send", "ch", v=2)]))
